@@ -41,8 +41,14 @@ def judge(ctx, recs, job):
         if r["beh"] >= 0:
             j["c10"]["behaviours"] = [j["c10"]["behaviours"][r["beh"]]]
             j["c10"]["concurrent"] = 0
+            j["c10"]["lazy_beh"] = []
+        elif r["beh"] <= -2:
+            j["c10"]["behaviours"] = []
+            j["c10"]["concurrent"] = 0
+            j["c10"]["lazy_beh"] = [j["c10"].get("lazy_beh", [])[-2 - r["beh"]]] * 3
         else:
             j["c10"]["behaviours"] = []
+            j["c10"]["lazy_beh"] = []
         ctx.violation(signature(r, info), "real cache run (%s) is not a behaviour of CachePlugin.tla satisfying Isolation/HitId: rejected at "
                       "event %s: %s" % (r["tag"], info.get("line_in_trace"), json.dumps(info.get("event"))[:400]),
                       {"rec": {"tag": r["tag"], "beh": r["beh"], "events": r["events"][:14]}, "job": j})
@@ -107,7 +113,31 @@ def run(ctx):
         behs = behs[:600]
     if len(behs) < 100:
         raise vlib.Infra("generator produced only %d behaviours with a mutation" % len(behs))
-    job = {"mode": "c10", "c10": {"map": cl.plain_map(), "behaviours": behs, "concurrent": 16, "rounds": 400 if T else 120, "r": RESP}}
+    # lazy mode: a stale hit is served, the caller overwrites it, the background refresh yields no answer
+    LZ = dict(Names='{"n1"}', Types='{"t1"}', Classes='{"c1"}', Flags="{0}", Resps="<- RespsC10L", LazyTTLs="{50}", Ticks="{10}", MaxNow="20",
+              OpKinds='{"exec", "tick", "refresh", "mutate"}', MaxHandles="3")
+    vlib.tlc_mc(ctx, SPEC, "c10_lazy.cfg", cfg_text=cl.cfg(MaxOps="6", **LZ), label="C10 design: lazy mode with mutations and empty refreshes")
+    gl = vlib.tlc_behaviours(ctx, SPEC, "c10_gen_lazy.cfg", cfg_text=cl.cfg(gen=True, MaxOps="6", **LZ), label="C10 gen: lazy (exhaustive)")
+
+    def lazy_ok(b):
+        st = b["steps"]
+        f = [i for i, s in enumerate(st) if s["a"] == "Exec" and s["o"]["res"] == "stale"]
+        if not f:
+            return False
+        rest = st[f[0]:]
+        kinds = [s["a"] for s in rest]
+        if "Tick" in kinds or "RefreshEnd" not in kinds:
+            return False
+        re_i = kinds.index("RefreshEnd")
+        # a mutation of a served message between the stale hit and the end of the refresh, and a lookup afterwards
+        return any(s["a"] == "Mutate" and s["hd"]["kind"] == "hit" for s in rest[:re_i]) and "Exec" in kinds[re_i:]
+    gl = [b for b in gl if lazy_ok(b)]
+    rng.shuffle(gl)
+    gl = gl[:400 if T else 60]
+    if len(gl) < 20:
+        raise vlib.Infra("lazy generator produced only %d usable behaviours" % len(gl))
+    job = {"mode": "c10", "c10": {"map": cl.plain_map(), "behaviours": behs, "concurrent": 16, "rounds": 400 if T else 120, "r": RESP,
+                                  "lazy_beh": gl}}
     recs, stderr = drive(ctx, job)
     tr = [r for r in recs if r["kind"] == "trace" and not r["slow"]]
     acc, rej = judge(ctx, tr, job)
@@ -120,7 +150,7 @@ def run(ctx):
                     return t
             return None
         cl.binding_selfcheck(ctx, [r["events"] for r in tr], corrupt, "hit content")
-        if len(tr) < len(behs):
+        if len(tr) < len(behs) + len(gl):
             raise vlib.Infra("driver returned %d usable traces for %d behaviours" % (len(tr), len(behs)))
         hits = sum(1 for r in tr for e in r["events"] if e["ev"] == "Exec" and e["o"]["res"] == "hit")
         muts = sum(e.get("n", 0) for r in tr for e in r["events"] if e["ev"] == "Mutate")
